@@ -615,6 +615,13 @@ def run_regions(case, obs, prng):
         seq = [prng.choice(goods) for _ in range(prng.randint(1, 3))]
         if bad:
             seq = seq[:pos] + [b] + seq[pos:]
+        if op in ('ctor', 'extend') and bad:
+            # the same members handed over in another container: a tuple, a one-shot iterator, a generator
+            form = prng.choice(['list', 'list', 'tuple', 'iter', 'generator', 'map'])
+            items = list(seq)
+            seq = {'list': lambda: items, 'tuple': lambda: tuple(items), 'iter': lambda: iter(items),
+                   'generator': lambda: (x for x in items), 'map': lambda: map(lambda x: x, items)}[form]()
+            obs.count('non-region-member-in-' + form)
         try:
             if op == 'append':
                 lst.append(b if bad else seq[0])
